@@ -1,7 +1,7 @@
 """C17 — compiles and runs are independent of history.
 
  (a) shape B: explicit-state search over sequences of compile requests on ONE
-     Parser object (24 texts: valid ones of different kinds, invalid ones that
+     Parser object (26 texts: valid ones of different kinds, invalid ones that
      fail inside a loop, a routine, a matrix block, an expression, a parameter
      list, at end of input); canonical parser state hashed for de-duplication;
      differential oracle: result, listing and error text equal a fresh Parser's.
@@ -52,6 +52,9 @@ TEXTS = [
     'define loc with q begin print q end loc 1',
     'define mac 9 assign gv mac print gv',
     'assign p 1 assign loc 2 print {p + loc}',
+    # a built-in function's name used as a variable / loop variable by one text, the function called by another
+    'assign round 3 repeat with floor from 1 to 2 print {round + floor}',
+    'print [round 2.5] print [floor 2.5]',
 ]
 
 
@@ -133,7 +136,8 @@ def rerun_family():
              ('printf', '{} {}', (N(1), ('bin', '/', N(1), N(0)))), ('printf', '{}', (N(5),)), ('printf', '{} {}', (N(1), N(2))),
              ('setreg', 'hue', ('bin', '/', N(1), N(0))),
              ('defmacro', 'lvl', N(5)), ('printf', '{lvl} {}', (N(7),)), ('printf', '{x} {hue}', ()),
-             ('repeat', ('range', 'lvl', N(1), N(2)), (('setreg', 'hue', ('var', 'lvl')), ('act', 'set', (('light', S('a')),))))]
+             ('repeat', ('range', 'lv', N(1), N(2)), (('setreg', 'hue', ('var', 'lv')), ('act', 'set', (('light', S('a')),)))),
+             ('assign', 'lv', N(7))]
     for n in (1, 2, 3, 4):
         for seq in itertools.product(alpha, repeat=n):
             if n == 4 and not any(s[0] == 'units' for s in seq):
